@@ -37,7 +37,8 @@ TABLES = {
     'Nums': [('l', 'long', 0), ('u', 'ulong', 0), ('vl', ('vec', 'long'), None), ('vu', ('vec', 'ulong'), None), ('big', 'Big', None),
              ('vbig', ('vec', 'Big'), None), ('i', 'int', 0), ('w', 'uint', 0), ('b8', 'byte', 0), ('s16', 'short', 0), ('vb8', ('vec', 'byte'), None),
              ('vs16', ('vec', 'short'), None), ('vi32', ('vec', 'int'), None), ('lim', 'Lim', None), ('vlim', ('vec', 'Lim'), None), ('e', 'Neg', 0),
-             ('ve', ('vec', 'Neg'), None), ('full', 'Full', 0), ('vfull', ('vec', 'Full'), None)],
+             ('ve', ('vec', 'Neg'), None), ('full', 'Full', 0), ('vfull', ('vec', 'Full'), None), ('d', 'double', 0.0), ('f', 'float', 0.0),
+             ('vd', ('vec', 'double'), None), ('vf', ('vec', 'float'), None)],
     'Geo': [('poly', 'Poly', None), ('tri', 'Tri', None), ('vtri', ('vec', 'Tri'), None), ('n', 'int', 0)],
     'Sub': [('id', 'uint', 0), ('tag', 'string', None), ('pt', 'Pt', None)],
     'Root': [('b', 'bool', False), ('i8', 'byte', -3), ('u8', 'ubyte', 0), ('i16', 'short', 0), ('u16', 'ushort', 500),
@@ -48,7 +49,7 @@ TABLES = {
              ('vt', ('vec', 'Leaf'), None), ('vp', ('vec', 'Pt'), None), ('vc', ('vec', 'Color'), None),
              ('nest', ('nested', 'Sub'), None), ('nest_s', ('nested', 'Fix'), None), ('raw', ('vec', 'ubyte'), None),
              ('b64', ('b64', False), None), ('b64u', ('b64', True), None), ('nest64', ('nested64', 'Sub'), None),
-             ('other', 'Other', None), ('any2', ('union', 'Any'), None), ('vfix', ('vec', 'Fix'), None)],
+             ('other', 'Other', None), ('any2', ('union', 'Any'), None), ('vfix', ('vec', 'Fix'), None), ('rec', 'Rec', None)],
 }
 REQUIRED = {('Sub', 'tag'), ('Req', 'a'), ('Req', 'b'), ('Req', 'c')}
 UNIONS = {'Any': [('Leaf', 'Leaf'), ('Other', 'Other'), ('Pt', 'Pt'), ('Str', 'string')],
@@ -64,6 +65,20 @@ BOUNDARY_INTS = lambda lo, hi: [lo, hi, 0, 1, -1 if lo < 0 else 1, lo + 1, hi - 
 
 def is_scalar(t):
     return isinstance(t, str) and (t in INT_RANGES or t in ('bool', 'float', 'double') or t in ENUMS)
+
+
+def f32(v):
+    return struct.unpack('<f', struct.pack('<f', v))[0]
+
+
+def small_decimal(r, maxdigits):
+    """m.mmm x 10^-E with 2..maxdigits significant digits and E in 1..22 (also a few positive exponents): magnitudes 1e-22 .. 1e-1 whose
+    shortest decimal form is scientific with a long mantissa"""
+    nd = r.randint(2, maxdigits)
+    m = r.randint(10 ** (nd - 1), 10 ** nd - 1)
+    e = r.choice(list(range(1, 23)) * 3 + [-3, -10, 0, 23, 30])
+    v = float('%de%d' % (m, -(nd - 1) - e))
+    return -v if r.random() < 0.2 else v
 
 
 # ---------------------------------------------------------------------------------------------- value trees
@@ -91,8 +106,10 @@ class Gen:
             c = [x for x in BOUNDARY_INTS(lo, hi) if lo <= x <= hi]
             return r.choice(c) if r.random() < 0.6 else r.randint(lo, hi)
         if t == 'float':
+            if r.random() < 0.35: return f32(small_decimal(r, 9))
             return r.choice([0.0, 1.5, -1.5, 0.25, 3.0, -0.0, 1024.0, 0.0625, 16777216.0, -2.5, 1e10, 0.5])
         if t == 'double':
+            if r.random() < 0.35: return small_decimal(r, 17)
             return r.choice([0.0, 2.5, -2.5, 0.1, 1e100, -1e-100, 3.141592653589793, 1.7976931348623157e308, 5e-324, 123456789.125, -0.0,
                              r.uniform(-1e6, 1e6), r.random()])
         e = ENUMS[t]
@@ -379,6 +396,8 @@ ASAN_ENV = {'ASAN_OPTIONS': 'detect_leaks=0:halt_on_error=0:allocator_may_return
 
 def gen_schema(ctx, san=False):
     gdir = os.path.join(ctx.bdir, 'gen')
+    # the struct-root schema goes to its own directory: its generated parser header may not even compile (see checks/c04.py)
+    ctx.gen(os.path.join(ROOT, 'gen', 'c04_sroot.fbs'), os.path.join(ctx.bdir, 'gen_sroot'), opts=('-a', '--json'), san=san)
     rc, out = ctx.gen(os.path.join(ROOT, 'gen', 'c04_schema.fbs'), gdir, opts=('-a', '--json'), san=san)
     if rc != 0: raise lib.BuildFailure('flatcc -a --json c04_schema.fbs', out)
     return gdir
